@@ -11,3 +11,24 @@ Proof. exact ProofsA.t_conforms_refuted. Qed.
    the transcription, every byte agrees for every supported type and value, both protocols *)
 Theorem t_conforms_partial : t_conforms_partial_statement.
 Proof. exact ProofsA.t_conforms_partial. Qed.
+
+(* ---- decode side: all alternative conformant encodings (Thrift/SpecC.v, proofs in Thrift/ProofsC.v) ---- *)
+From Verif Require Import Thrift.SpecC Thrift.ProofsC.
+
+(* EVERY alternative conformant compact encoding -- for every field header and every list / set header that has a short
+   form, the long form instead, in any combination (every choice oracle) -- of every value of every supported type is
+   accepted by Unmarshal with the very result obtained from the bytes Marshal writes, the value up to tnorm *)
+Theorem t_alt_accept : t_alt_accept_statement.
+Proof. exact ProofsC.t_alt_accept. Qed.
+
+(* with no long form chosen the alternative encoder is the transcription spec_enc in the package dialect ... *)
+Theorem t_alt_short : t_alt_short_statement.
+Proof. exact ProofsC.t_alt_short. Qed.
+
+(* ... hence the bytes Marshal writes *)
+Theorem t_alt_short_marshal : t_alt_short_marshal_statement.
+Proof. exact ProofsC.t_alt_short_marshal. Qed.
+
+(* and the alternatives are real: some oracle gives bytes Marshal does not write *)
+Theorem t_alt_differs : t_alt_differs_statement.
+Proof. exact ProofsC.t_alt_differs. Qed.
